@@ -232,7 +232,7 @@ var newMap = Func(func(a Arguments) reflect.Value {
 			a.Panicf("map(): can't use %+v as string key: %s is not convertible to string", key, key.Type())
 		}
 		key = key.Convert(stringType)
-		m.SetMapIndex(a.Get(i), a.Get(i+1))
+		m.SetMapIndex(key, a.Get(i+1))
 	}
 
 	return m
